@@ -44,7 +44,13 @@ def flow_request(kt, flow, kt2=None):
     d1 = cfg.base_doc(account_extra=acc1)
     d2 = cfg.base_doc(account_extra=acc2)
     phases = [{"attempts": 1}]
-    if flow != "register":
+    if flow == "double-rollover":
+        # the key type is changed twice, the daemon being restarted in between without any renewal: the roll-over must be
+        # authorised by the key the CA holds (the first one), not by the most recently superseded one
+        kt2, kt3 = kt2
+        phases.append({"mode": "load", "files": {"main.toml": cfg.to_toml(cfg.base_doc(account_extra={"key_type": kt2}))}})
+        phases.append({"attempts": 1, "files": {"main.toml": cfg.to_toml(cfg.base_doc(account_extra={"key_type": kt3}))}})
+    elif flow != "register":
         phases.append({"attempts": 1, "files": {"main.toml": cfg.to_toml(d2)}})
     req = cfg.scenario(d1, cas=[ca], phases=phases)
     req["meta"] = {"flow": flow, "kt": kt, "kt2": kt2}
@@ -55,7 +61,7 @@ def run(ctx):
     res = Result("model_checking")
     res.rule = ("(a) E1 over 2 consecutive attempts with the nonce-relevant answer alphabet (Replay-Nonce present/absent on GETs and "
                 "errors, badNonce, cuts, failing newNonce), bound 2 (second deviation from a 2-symbol alphabet); (b) 7 account key types x "
-                "{register, contact update, external binding HS256/384/512} and all 49 ordered key roll-overs, plus key+contacts changed together; "
+                "{register, contact update, external binding HS256/384/512} and all 49 ordered key roll-overs, plus key+contacts changed together and two key changes with a restart but no renewal in between; "
                 "(c) ECDSA signature shape cells per curve through the real sign function. Every POST of every execution is checked by the CA.")
     # (a)
     base = flows.issuance_request(pair="none", attempts=2, ca_cfg={"cert_lifetime_s": 10 * 86400})
@@ -87,6 +93,8 @@ def run(ctx):
                 reqs.append(flow_request(kt, "rollover", kt2))
     for kt, kt2 in [("ecdsa-p256", "ecdsa-p384"), ("rsa2048", "ed25519"), ("ed448", "ecdsa-p521")]:
         reqs.append(flow_request(kt, "both", kt2))
+    for kt, kt2, kt3 in [("ecdsa-p256", "ecdsa-p384", "ecdsa-p521"), ("ecdsa-p256", "ed25519", "ecdsa-p256"), ("ed25519", "ecdsa-p384", "ed448")]:
+        reqs.append(flow_request(kt, "double-rollover", (kt2, kt3)))
     obs = e1.run_all(ctx.pool, reqs, 120.0)
     posts = 0
     for r, o in zip(reqs, obs):
